@@ -1,6 +1,6 @@
 //! Case driver: interprets op lines over the real code (stack of live accessors), keeps the owned model
 //! in lock-step, prints the canonical answer lines and evaluates the property oracle.
-use crate::access::Access;
+use crate::access::Backing;
 use crate::model::{self, Kind, MOut};
 use crate::node::{class_of, Holder, Level, Node, Out};
 use crate::ops::{parse_op, Op};
@@ -27,10 +27,12 @@ pub struct Header {
     pub refuse: Vec<u32>,
     /// C03: allocation end flush against the guard page (else the data start)
     pub end_aligned: bool,
+    /// C03: the buffer is a native account (`layout=account`, or a case id starting with `acct-`)
+    pub account: bool,
 }
 
 pub fn parse_header(line: &str) -> Header {
-    let bad = |id: &str| Header { id: id.to_string(), shape: None, init: None, init_b: None, swap: false, refuse: vec![], end_aligned: false };
+    let bad = |id: &str| Header { id: id.to_string(), shape: None, init: None, init_b: None, swap: false, refuse: vec![], end_aligned: false, account: false };
     let Some(t) = parse_toks(line) else { return bad("?") };
     if t.len() < 2 || t[0].atom() != Some("case") {
         return bad("?");
@@ -44,6 +46,7 @@ pub fn parse_header(line: &str) -> Header {
     let shape = Shape::from_tok(&t[si]);
     let mut refuse = vec![];
     let mut end_aligned = false;
+    let mut account = id.starts_with("acct-");
     for opt in &t[si + 1 + nvals..] {
         let Some(a) = opt.atom() else { return bad(&id) };
         if let Some(list) = a.strip_prefix("refuse=") {
@@ -60,6 +63,8 @@ pub fn parse_header(line: &str) -> Header {
             end_aligned = false;
         } else if a == "layout=end" {
             end_aligned = true;
+        } else if a == "layout=account" {
+            account = true;
         } else {
             return bad(&id);
         }
@@ -72,6 +77,7 @@ pub fn parse_header(line: &str) -> Header {
         swap,
         refuse,
         end_aligned,
+        account: account && !swap,
     }
 }
 
@@ -176,13 +182,18 @@ fn guarded(f: impl FnOnce() -> Result<Val, String>) -> Result<Val, String> {
     }
 }
 
-fn observe<T: Node + ?Sized>(access: &'static Access, stack: &[Box<dyn Level>]) -> Obs {
+fn observe<T: Node + ?Sized, B: Backing>(access: &'static B, stack: &[Box<dyn Level>]) -> Obs {
     let bytes = access.bytes();
     let owned = guarded(|| T::owned(&bytes).map(|o| T::owned_to_val(&o)).map_err(class_of));
-    let shared = guarded(|| {
-        let s = SharedWrapper::<T::Ptr>::new::<T>(access).map_err(class_of)?;
-        T::view(&s)
-    });
+    let shared = if B::SHARED_WHILE_EXCLUSIVE || stack.is_empty() {
+        guarded(|| {
+            let s = SharedWrapper::<T::Ptr>::new::<T>(access.da()).map_err(class_of)?;
+            T::view(&s)
+        })
+    } else {
+        // a real account refuses a shared borrow while the exclusive one is alive
+        owned.clone()
+    };
     let live = stack.iter().map(|l| guarded(|| l.owned_view())).collect();
     let live_deref = stack.iter().map(|l| guarded(|| l.deref_view())).collect();
     Obs { len: access.len(), bytes, owned, shared, live, live_deref }
@@ -222,9 +233,9 @@ pub fn acc_str(acc: &[Acc]) -> String {
 }
 
 /// C03 gates on one op line's trace. Returns (class, detail) of the first violation.
-pub fn check_trace(acc: &[Acc], access: &Access, len_before: usize, len_after: usize, is_err: bool) -> Option<(&'static str, String)> {
+pub fn check_trace<B: Backing>(acc: &[Acc], access: &B, len_before: usize, len_after: usize, is_err: bool) -> Option<(&'static str, String)> {
     let cap = access.cap() as i64;
-    let log = access.realloc_log.borrow().clone();
+    let log = access.realloc_log();
     let mut li = 0usize;
     let mut cur = len_before;
     let owned = len_before.max(len_after) as i64;
@@ -359,7 +370,7 @@ impl Oracle<'_, '_> {
         }
     }
 
-    fn check_state<T: Node + ?Sized>(&mut self, obs: &Obs, levels: &[Vec<Step>], access: &Access) {
+    fn check_state<T: Node + ?Sized, B: Backing>(&mut self, obs: &Obs, levels: &[Vec<Step>], access: &B) {
         if self.muted {
             return;
         }
@@ -423,7 +434,7 @@ fn known_class_for(kind: Kind) -> &'static str {
     }
 }
 
-pub fn run_case<T: Node + ?Sized>(header_line: &str, hdr: &Header, src: &mut dyn OpSource, cx: &mut Cx) -> CaseOut {
+pub fn run_case<T: Node + ?Sized, B: Backing>(header_line: &str, hdr: &Header, src: &mut dyn OpSource, cx: &mut Cx) -> CaseOut {
     let prop = cx.prop;
     cx.rec.case(header_line);
     cx.journal_case(header_line);
@@ -443,17 +454,22 @@ pub fn run_case<T: Node + ?Sized>(header_line: &str, hdr: &Header, src: &mut dyn
         }
         return out;
     };
-    let access_box = Box::new(if prop == Prop::C03 {
-        Access::new_guard(&bytes, hdr.refuse.clone(), hdr.end_aligned)
-    } else {
-        Access::new(&bytes, hdr.refuse.clone())
-    });
+    let Some(access_box) = B::create(&bytes, hdr.refuse.clone(), prop == Prop::C03, hdr.end_aligned) else {
+        // this backing cannot serve the header (e.g. refuse= on a real account): every line is bad-op
+        let dummy = Val::Rem(vec![]);
+        let mut n = 0;
+        while let Some(l) = src.next(&GenView { shape: &shape, model: &dummy, levels: &[vec![]], len: 0, cap: 0, ops_done: n }) {
+            cx.rec.op(&l, "bad-op");
+            n += 1;
+        }
+        return out;
+    };
     // SAFETY: every accessor (the `stack`) is dropped before `access_box` at the end of this function.
-    let access: &'static Access = unsafe { &*(&*access_box as *const Access) };
+    let access: &'static B = unsafe { &*(&*access_box as *const B) };
     let mut stack: Vec<Box<dyn Level>> = vec![];
     let new_top = |stack: &mut Vec<Box<dyn Level>>| -> Result<(), String> {
-        let top = ExclusiveWrapper::<'static, 'static, T::Ptr, ExclusiveWrapperTopMeta<'static, T, Access>>::new(access).map_err(class_of)?;
-        stack.push(Box::new(Holder::<T, ExclusiveWrapperTopMeta<'static, T, Access>>(top)));
+        let top = ExclusiveWrapper::<'static, 'static, T::Ptr, ExclusiveWrapperTopMeta<'static, T, B::A>>::new(access.da()).map_err(class_of)?;
+        stack.push(Box::new(Holder::<T, ExclusiveWrapperTopMeta<'static, T, B::A>>(top)));
         Ok(())
     };
     let mut dead = false;
@@ -466,8 +482,8 @@ pub fn run_case<T: Node + ?Sized>(header_line: &str, hdr: &Header, src: &mut dyn
     if dead {
         orc.fail("panic", "creating the top accessor failed".into());
     } else {
-        let obs = observe::<T>(access, &stack);
-        orc.check_state::<T>(&obs, &levels, access);
+        let obs = observe::<T, B>(access, &stack);
+        orc.check_state::<T, B>(&obs, &levels, access);
     }
     let cap = access.cap();
     out.states.push((orc.model.clone(), vec![]));
@@ -572,6 +588,10 @@ pub fn run_case<T: Node + ?Sized>(header_line: &str, hdr: &Header, src: &mut dyn
             }
         });
         let trace = if prop == Prop::C03 { take_trace(access.base_addr()) } else { vec![] };
+        {
+            let rs: Vec<(usize, usize)> = trace.iter().filter_map(|a| if let Acc::Realloc { old, new, .. } = a { Some((*old, *new)) } else { None }).collect();
+            access.note_trace(&rs);
+        }
         let impl_out = match exec {
             Ok(o) => o,
             Err(msg) => {
@@ -607,7 +627,7 @@ pub fn run_case<T: Node + ?Sized>(header_line: &str, hdr: &Header, src: &mut dyn
         }
 
         // ---- observe + answer
-        let obs = observe::<T>(access, &stack);
+        let obs = observe::<T, B>(access, &stack);
         let mut ans = answer(prop, &impl_out, &obs);
         let mut c03_violation = None;
         if let Some(snap) = &snap {
@@ -627,13 +647,13 @@ pub fn run_case<T: Node + ?Sized>(header_line: &str, hdr: &Header, src: &mut dyn
             Out::Err(c) => orc.cx.rec.bump(&format!("outcome:err:{c}")),
             Out::Bad => {}
         }
-        if access.reallocs_now.get() > 0 || matches!(impl_out, Out::Err(_)) {
+        if access.reallocs_now() > 0 || matches!(impl_out, Out::Err(_)) {
             nontrivial = true;
         }
-        if access.refused_now.get() {
+        if access.refused_now() {
             orc.cx.rec.bump("fault:refused_growth");
         }
-        if access.limit_now.get() {
+        if access.limit_now() {
             orc.cx.rec.bump("fault:growth_limit");
         }
         if dead {
@@ -648,7 +668,7 @@ pub fn run_case<T: Node + ?Sized>(header_line: &str, hdr: &Header, src: &mut dyn
             Plan::Apply(r) => (r.out, r.new, r.kind, r.partials, r.known),
         };
         let changed = obs.bytes != pre_bytes;
-        let refused = access.refused_now.get();
+        let refused = access.refused_now();
         match (&m_out, &impl_out) {
             (MOut::Ok(mret), Out::Ok(iret)) => {
                 if refused {
@@ -671,7 +691,7 @@ pub fn run_case<T: Node + ?Sized>(header_line: &str, hdr: &Header, src: &mut dyn
                         orc.cx.rec.bump(&format!("note:err_class_differs:{mc}/{c}"));
                     }
                 }
-                if let Some(k) = known.filter(|_| !refused && !access.limit_now.get()) {
+                if let Some(k) = known.filter(|_| !refused && !access.limit_now()) {
                     // initialiser fails after the resize: state is not canonical any more
                     if changed {
                         orc.known(k, format!("`{line}` returned err:{c} but len {}→{} and the bytes changed", pre_bytes.len(), obs.len));
@@ -710,7 +730,7 @@ pub fn run_case<T: Node + ?Sized>(header_line: &str, hdr: &Header, src: &mut dyn
             }
             _ => {}
         }
-        orc.check_state::<T>(&obs, &levels, access);
+        orc.check_state::<T, B>(&obs, &levels, access);
         while out.states.len() < out.lines.len() - 1 {
             // lines answered without executing (bad-op / dead) keep the previous state
             let last = out.states.last().unwrap().clone();
@@ -733,15 +753,15 @@ pub fn run_case<T: Node + ?Sized>(header_line: &str, hdr: &Header, src: &mut dyn
         if drop_res.is_err() {
             orc.fail("panic", "dropping the accessors at the end of the case panicked".into());
         } else {
-            let obs = observe::<T>(access, &stack);
-            orc.check_state::<T>(&obs, &[], access);
+            let obs = observe::<T, B>(access, &stack);
+            orc.check_state::<T, B>(&obs, &[], access);
         }
     }
     if nontrivial {
         orc.cx.rec.mark_nontrivial();
     }
     orc.cx.rec.sample_current(5);
-    out.grow_calls = access.grow_calls.get();
+    out.grow_calls = access.grow_calls();
     out.failed = orc.failed;
     // stack is empty here; only now may the backing store go away
     std::mem::forget(drop_res);
